@@ -149,8 +149,33 @@ static FWire c01p(Reader& r,FReader& f) {
     return out;
 }
 
+// multi-point sensors read from a labelled 7-column file (name x y z ox oy oz weight; one line per integration point, the name
+// tells which sensor):  c01m <model id> <ndip> <sensors file id> | dipoles   (file q<id>.squids in the working directory)
+//   -> status nsensors npositions nrows ndip mask label_1 ... label_nsensors | GainMEG (nrows x ndip)    (labels are "G<number>")
+static FWire c01m(Reader& r,FReader& f) {
+    const ll id = r.z(); const size_t ndip = r.n(); const ll fid = r.z();
+    Matrix dipoles(ndip,6);
+    for (size_t i=0;i<ndip;++i) for (unsigned c=0;c<6;++c) dipoles(i,c) = f.x();
+    if (!r.done() || !f.done()) throw Reader::Malformed();
+    const std::string stem = "m"+std::to_string(id);
+    const Geometry geo(stem+".geom",stem+".cond");
+    const Sensors squids(("q"+std::to_string(fid)+".squids").c_str());
+    SymMatrix HM = HeadMat(geo); HM.invert();
+    const Matrix dsm = DipSourceMat(geo,dipoles,Integrator(3,10,0.001),"");
+    const Matrix h2mm  = Head2MEGMat(geo,squids);
+    const Matrix ds2mm = DipSource2MEGMat(dipoles,squids);
+    const auto sHM = snap(HM); const auto sdsm = snap(dsm); const auto sh2mm = snap(h2mm); const auto sds2mm = snap(ds2mm);
+    const GainMEG G(HM,dsm,h2mm,ds2mm);
+    ll dirty = 0;
+    if (!same(HM,sHM)) dirty |= 1; if (!same(dsm,sdsm)) dirty |= 2; if (!same(h2mm,sh2mm)) dirty |= 8; if (!same(ds2mm,sds2mm)) dirty |= 16;
+    FWire out; out.z = Wire{ST_OK,(ll)squids.getNumberOfSensors(),(ll)squids.getNumberOfPositions(),(ll)G.nlin(),(ll)G.ncol(),dirty};
+    for (const std::string& n : squids.getNames()) out.z.push_back(n.size()>1 ? atoll(n.c_str()+1) : -1);
+    for (size_t i=0;i<G.nlin();++i) for (size_t j=0;j<G.ncol();++j) out.f.push_back(G(i,j));
+    return out;
+}
+
 int main(int argc,char** argv) {
     if (argc<2) return 2;
     struct rlimit rl; rl.rlim_cur=rl.rlim_max=(rlim_t)12<<30; setrlimit(RLIMIT_AS,&rl);
-    return run_cases_f(argv[1],[&](const std::string& comp,Reader& r,FReader& f)->FWire { if (comp=="c01") return c01(r,f); if (comp=="c01p") return c01p(r,f); if (comp=="c01s") return c01s(r,f); return FWire{Wire{-2},{}}; });
+    return run_cases_f(argv[1],[&](const std::string& comp,Reader& r,FReader& f)->FWire { if (comp=="c01") return c01(r,f); if (comp=="c01p") return c01p(r,f); if (comp=="c01s") return c01s(r,f); if (comp=="c01m") return c01m(r,f); return FWire{Wire{-2},{}}; });
 }
